@@ -25,12 +25,13 @@ simple("C02", "exploration",
        "values on 4 states) and depth 3 (3 values, 2 states / 6 values, 8 states), all getters + validate on every new object state "
        "and to_string/to_diagram/copy/move on every new (offsets, flags, length, JSON-escape classes) signature; url_search_params "
        "(k<=3 as init/key/value, every operation sequence of depth <=2 / 3 with three iterators held open); idna on bytes (k<=3, IDNA "
-       "alphabet k<=3 / 4) and on vectors of <=3 / 4 of 35 code points incl. surrogates and values above U+10FFFF; percent-encode/"
+       "alphabet k<=3 / 4; punycode guard-boundary family: m=0..8 nines + every 1 or 2 of the 36 digit characters, bare / after a- / ab-, "
+       "35,964 labels as bare label, xn-- label, and next to a non-ASCII label through to_ascii and parse) and on vectors of <=3 / 4 of 35 code points incl. surrogates and values above U+10FFFF; percent-encode/"
        "decode helpers and checkers (k<=3 / +k=4 sub-alphabet); parse_url_pattern string/init forms +-base +-ignoreCase, then "
        "test/exec/match/test_components, url_pattern_init::process*, url_pattern_helpers (k<=2 over the raw and a 30-token pattern-"
        "syntax alphabet / + k=3 light), every string as input of 5 fixed patterns (k<=2 / 3); length sweep: every length 0..70, each "
        "of 6 / 12 interesting bytes at every offset, 3 / 8 templates; IPv4-looking hosts (<=4 / 6 chars over {0,1,9,.,x,a,f} + 12,288 "
-       "octet products); the C API (k<=2). evaluations = library calls, non-trivial = call produced a non-failure result, distinct = "
+       "octet products + 2^8/2^16/2^24/2^32/2^64 -1,0,+1 in decimal/hex/octal at every position); the C API (k<=2). evaluations = library calls, non-trivial = call produced a non-failure result, distinct = "
        "distinct (entry point, status, result length) shapes. Thorough adds the quick enumeration on the uninstrumented build under "
        "valgrind memcheck",
        ["oracle: process level - no ASan/UBSan/LSan report, no _GLIBCXX_ASSERTIONS abort, no exception leaving a call, no "
